@@ -720,3 +720,22 @@ fn copy_short_name_part_spec() {
     kani::cover!(!fits);
     kani::cover!(fits && !lossy && n == 3);
 }
+
+/// C16/C19: concrete non-ASCII characters whose Unicode upper case is ASCII or longer than one character (sharp s, dotless
+/// i, long s, the fi ligature): each becomes exactly one '_' in the alias and marks the conversion lossy, whatever the
+/// case table says - the alias bytes written to disk must not depend on the unicode feature.
+fn copy_part_case(src: &str) {
+    let mut dst = [b' '; 8];
+    let (n, fits, lossy) = ShortNameGenerator::copy_short_name_part(&mut dst, src);
+    assert!(n == 2 && fits && lossy);
+    assert!(dst[0] == b'A' && dst[1] == b'_' && dst[2] == b' ');
+}
+#[kani::proof]
+#[kani::unwind(16)]
+fn copy_short_name_part_sharp_s() { copy_part_case("a\u{DF}"); }
+#[kani::proof]
+#[kani::unwind(16)]
+fn copy_short_name_part_dotless_i() { copy_part_case("a\u{131}"); }
+#[kani::proof]
+#[kani::unwind(16)]
+fn copy_short_name_part_ligature() { copy_part_case("a\u{FB01}"); }
